@@ -86,7 +86,12 @@ namespace Restful.Driver
     property predicate evaluated on the REAL outcome -/
 def routeAnswer (id : String) (cfg : Config) (req : Req) (real : Real) : String :=
   let (o, tag) := routeTagged implEnv cfg req
-  let specs := specLine "WF" cfg.wfTemplates ++ specLine "C01" (Spec.c01Holds implEnv cfg req real.outcome)
+  -- well-formed = the hypotheses of the theorems: templates read, and the root of a service without
+  -- routes (about which `wfTemplates` says nothing) reads too
+  let wf := cfg.wfTemplates && (match cfg.router with
+    | .curly => Curly.rootsRead cfg
+    | .jsr => Jsr.rootsRead cfg)
+  let specs := specLine "WF" wf ++ specLine "C01" (Spec.c01Holds implEnv cfg req real.outcome)
     ++ specLine "C04" (Spec.c04Holds implEnv cfg req real.outcome)
     ++ specLine "C02" (Spec.c02Holds implEnv cfg req real.outcome real.invocations)
     ++ specLine "noRootRegex" (Spec.noRootRegex cfg) ++ specLine "bodyCoherent" (Spec.bodyCoherent req)
